@@ -26,7 +26,7 @@ theorem signed_eq (u : Nat) :
 /-- the inner loop appends one `\uc1\uN*` per UTF-16 unit and touches nothing else that is read later -/
 theorem loop2_units (text : List Nat) (x1 : Nat) :
     ∀ (us : List Nat) (s : PSt),
-      ((us.map Int.ofNat).foldl (loop2 text x1) s).converted_text = s.converted_text ++ us.flatMap escUnit := by
+      ((us.map Int.ofNat).foldl (loop2 text x1) s).v0 = s.v0 ++ us.flatMap escUnit := by
   intro us
   induction us with
   | nil => intro s; simp
@@ -39,7 +39,7 @@ theorem loop2_units (text : List Nat) (x1 : Nat) :
 
 /-- one iteration of the outer loop appends `escapeCp` of the character -/
 theorem loop1_cp (text : List Nat) (s : PSt) (c : Nat) :
-    (loop1 text s c).converted_text = s.converted_text ++ escapeCp c := by
+    (loop1 text s c).v0 = s.v0 ++ escapeCp c := by
   unfold loop1 escapeCp
   simp only [Int.ofNat_eq_natCast]
   by_cases h : c < 128
@@ -50,7 +50,7 @@ theorem loop1_cp (text : List Nat) (s : PSt) (c : Nat) :
     by_cases hb : c < 0x10000
     · have hb' : ((c : Int) < 65536) := by omega
       rw [if_pos (by simpa using hb')]
-      have := loop2_units text c [c] { s with unicode_int := (c : Int), code_units := [(c : Int)] }
+      have := loop2_units text c [c] { s with v1 := (c : Int), v2 := [(c : Int)] }
       simp only [codeUnits, if_pos hb]
       simpa using this
     · have hb' : ¬ ((c : Int) < 65536) := by omega
@@ -60,14 +60,14 @@ theorem loop1_cp (text : List Nat) (s : PSt) (c : Nat) :
       have e2 : (56320 : Int) + ((c : Int) - 65536) % 1024 = ((0xDC00 + (c - 0x10000) % 1024 : Nat) : Int) := by
         omega
       have := loop2_units text c [0xD800 + (c - 0x10000) / 1024, 0xDC00 + (c - 0x10000) % 1024]
-        { s with unicode_int := (c : Int), offset := (c : Int) - 65536,
-                 code_units := [(55296 : Int) + ((c : Int) - 65536) / 1024, (56320 : Int) + ((c : Int) - 65536) % 1024] }
+        { s with v1 := (c : Int), v3 := (c : Int) - 65536,
+                 v2 := [(55296 : Int) + ((c : Int) - 65536) / 1024, (56320 : Int) + ((c : Int) - 65536) % 1024] }
       simp only [List.map_cons, List.map_nil, Int.ofNat_eq_natCast, ← e1, ← e2] at this
       simp only [codeUnits, if_neg hb]
       exact this
 
 theorem loop1_all (text : List Nat) : ∀ (t : List Nat) (s : PSt),
-    (t.foldl (loop1 text) s).converted_text = s.converted_text ++ escape t := by
+    (t.foldl (loop1 text) s).v0 = s.v0 ++ escape t := by
   intro t
   induction t with
   | nil => intro s; simp [escape]
